@@ -23,7 +23,7 @@ var round5Rules = map[string][]func(*report.Ctx){
 	"C06": {checkFrontEndOutcomes, checkCancelFlowsUnconditional, checkInitFailuresClosed, checkAppCtxMiddlewareOnRouters, checkContextClearedOnlyByReset, checkSingleEventSender, checkErrorResponseTypeVerbatim, checkBootstrapFallbackTypes, checkRuntimeLookedUpAfterSuccess},
 	"C19": {checkSingleEventSender},
 	"C15": {checkBootstrapFallbackTypes, checkLaunchErrorVerbatim, checkAgentAutomataTruthful},
-	"C07": {checkFrontEndOutcomes, checkCancelFlowsUnconditional, checkInitFailuresClosed, checkTeardownEntryPointsUnconditional, checkSingleEventSender, checkRuntimeLookedUpAfterSuccess},
+	"C07": {checkNilErrorNotHandled, checkFrontEndOutcomes, checkCancelFlowsUnconditional, checkInitFailuresClosed, checkTeardownEntryPointsUnconditional, checkSingleEventSender, checkRuntimeLookedUpAfterSuccess},
 	"C08": {checkExitChannelAfterExec, checkTeardownEntryPointsUnconditional, checkHandlerClosuresStateless},
 	"C20": {checkHandlerClosuresStateless, checkCropOwnLength},
 	"C09": {checkAgentReleaseUnconditional, checkSuspendConsumesRelease, checkTeardownEntryPointsUnconditional, checkDeadlineUnit, checkShutdownFuncOrder, checkCountAgentsCountsBoth},
@@ -1807,4 +1807,112 @@ func checkFrontEndOutcomes(c *report.Ctx) {
 		}
 	})
 	c.Check("R-ORDER", an.FuncName(f)+"/outcome/success", "a completed invocation is always answered with the body (and status, when set) captured from the platform", !leak && copied, fpos(f), 2, "a return is reachable on the success edge without writing the captured body: %v; captured status copied: %v", leak, copied)
+}
+
+// checkNilErrorNotHandled (R-ERRUSE, the other direction): an error value is not treated as an error on the edge
+// where it has just been tested to be nil while being ignored where it is one. If the tested value is never used
+// where it is known to be non-nil, then in the block entered directly by the nil edge of the test it is neither
+// returned, nor passed to a call, nor stored: that would be the error handling, sitting on the wrong edge (a flipped
+// test makes every success fail and lets every failure through).
+func checkNilErrorNotHandled(c *report.Ctx) {
+	service := serviceReachable(c)
+	ntests := 0
+	var bad []string
+	pos := token.NoPos
+	for _, f := range repoFuncs(c) {
+		if !service[f] || strings.HasPrefix(an.FuncName(f), "L/testdata.") || strings.HasPrefix(an.FuncName(f), "L/rapidcore/standalone") {
+			continue
+		}
+		for _, b := range f.Blocks {
+			if len(b.Instrs) == 0 {
+				continue
+			}
+			iff, ok := b.Instrs[len(b.Instrs)-1].(*ssa.If)
+			if !ok {
+				continue
+			}
+			bo, ok := iff.Cond.(*ssa.BinOp)
+			if !ok || (bo.Op != token.NEQ && bo.Op != token.EQL) {
+				continue
+			}
+			var e ssa.Value
+			if an.IsNil(bo.Y) {
+				e = bo.X
+			} else if an.IsNil(bo.X) {
+				e = bo.Y
+			}
+			if e == nil || !isErrorType(e.Type()) {
+				continue
+			}
+			if _, isCall := an.CallOf(e); isCall < 0 {
+				continue
+			}
+			if cl, _ := an.CallOf(e); cl == nil {
+				continue // a parameter, a field, a φ: not "the error of the call just made"
+			}
+			ntests++
+			nilEdge := b.Succs[1]
+			if bo.Op == token.EQL {
+				nilEdge = b.Succs[0]
+			}
+			if len(nilEdge.Preds) != 1 {
+				continue
+			}
+			// is the value dealt with where it is known to be an error? then a use on the nil edge (a named result
+			// returned at the end of the success path, say) is not the handling of an error
+			handled := false
+			facts := an.NewFacts(f)
+			ev := e
+			if refs := e.Referrers(); refs != nil {
+				for _, r := range *refs {
+					if r == ssa.Instruction(bo) {
+						continue
+					}
+					if facts.Holds(r.Block(), func(ft an.Fact) bool { return an.CmpNil(ft, false, func(v ssa.Value) bool { return v == ev }) }) {
+						handled = true
+					}
+				}
+			}
+			if handled {
+				continue
+			}
+			for _, in := range nilEdge.Instrs {
+				var rands []*ssa.Value
+				used := false
+				for _, r := range in.Operands(rands) {
+					if *r == e {
+						used = true
+					}
+				}
+				if !used {
+					continue
+				}
+				switch in.(type) {
+				case *ssa.BinOp, *ssa.Phi:
+					continue // compared again, or merged
+				case *ssa.Return:
+					// a named result returned at the end of the success path is this value too; only a block that
+					// does nothing but return it propagates an error
+					work := false
+					for _, other := range nilEdge.Instrs {
+						switch o := other.(type) {
+						case *ssa.Go, *ssa.Defer, *ssa.Store, *ssa.Send, *ssa.MapUpdate:
+							work = true
+						case *ssa.Call:
+							if cal := an.Callee(o); !strings.Contains(cal, "logrus") && !strings.HasPrefix(cal, "fmt.") {
+								work = true
+							}
+						}
+					}
+					if work {
+						continue
+					}
+				}
+				bad = append(bad, an.FuncName(f)+": "+an.Describe(in))
+				pos = an.InstrPos(in)
+			}
+		}
+	}
+	sort.Strings(bad)
+	c.Check("R-ERRUSE", "nil-error-not-handled", "in no service-time function is the error of a call returned, reported or stored in the block entered by the very edge on which it was tested to be nil", len(bad) == 0 && ntests >= 50, pos, ntests, "error tests examined: %d; tested value used on its nil edge: %v", ntests, bad)
 }
